@@ -86,5 +86,22 @@ def run(prop, units, results, seed):
                 violations.append(d)
         except Exception as e:  # build problems are infrastructure, never alarms
             undecided.append("boundary differential could not run: %r" % (e,))
+    if prop in ("C06", "C16"):
+        try:
+            from . import progsearch
+
+            rep = progsearch.search(prop)
+            cov["program_corpus"] = {
+                "bounded": True,
+                "programs_run_on_real_binary": rep["runs"],
+                "failures": len(rep["failures"]),
+                "rule": "a small fixed corpus of Quiver programs run on quiv built from /repo's working tree: "
+                + ("tail-recursive shapes at N=40 and N=2000, results and peak frames/locals/stack must agree (only the main process's peaks are visible through `quiv run --profile`)" if prop == "C16" else "binaries shared, sliced, captured, spawned, sent and selected must read back the expected bytes; a debug build also runs check_refcounts at every process completion")
+                + "; BOUNDED smoke evidence and a source of concrete failing programs, never counted as proved",
+            }
+            for f in rep["failures"]:
+                violations.append({"builtin": "program:" + f["program"], "args": [f["source"]], "rope_shape": "-", "expected": ["see why"], "observed": {"why": f["why"]}, "call": None})
+        except Exception as e:
+            undecided.append("program corpus could not run: %r" % (e,))
     cov["thorough_wall_s"] = round(time.time() - t0, 1)
     return {"coverage": cov, "undecided": undecided, "violations": violations}
